@@ -70,6 +70,11 @@ Params(f) ==
     [] f = "Sandwich" -> [kind |-> {"PlanarSandwich", "PlanarSandwichHot", "PlanarSandwichHalf"}, kappa |-> Pick({<<1, 1>>, <<1, 2>>}, {}),
                           L |-> Pick({<<2, 1>>, <<3, 1>>}, {}), TL |-> Pick({<<0, 1>>, <<3, 1>>}, {}), TR |-> Pick({<<0, 1>>, <<2, 1>>}, {}),
                           b1 |-> Pick({<<1, 1>>, <<2, 1>>}, {}), b2 |-> Pick({<<0, 1>>, <<1, 2>>}, {})]
+    [] f = "Riemann2D" -> \* supersonic bottom / top states: pressure, density, Mach number, flow angle (degrees), gamma
+                          [pB |-> Pick({<<1, 1>>, <<2, 1>>}, {}), rB |-> Pick({<<1, 1>>}, {<<1, 2>>}), MB |-> Pick({<<12, 5>>, <<3, 1>>}, {<<4, 1>>}),
+                           thB |-> Pick({<<0, 1>>, <<5, 1>>}, {<<-5, 1>>}), gB |-> Pick({<<7, 5>>, <<5, 3>>}, {}),
+                           pT |-> Pick({<<1, 2>>, <<1, 1>>}, {<<3, 1>>}), rT |-> Pick({<<1, 4>>, <<1, 1>>}, {}), MT |-> Pick({<<7, 1>>, <<3, 1>>}, {<<2, 1>>}),
+                           thT |-> Pick({<<0, 1>>, <<-5, 1>>}, {<<10, 1>>}), gT |-> Pick({<<7, 5>>}, {<<5, 3>>})]
     [] f = "RadShock" -> \* Cv in units of the default 1.4472799784454e12 erg/(g eV)
                          [solver |-> Pick({"ED", "nED", "LM_nED"}, {"FLD_LP", "FLD_1", "FLD_2"}), M0 |-> Pick({<<6, 5>>, <<2, 1>>}, {<<21, 20>>, <<3, 1>>, <<5, 1>>}),
                           gamma |-> Pick({<<5, 3>>, <<7, 5>>}, {}), Cv |-> Pick({<<1, 1>>, <<1, 2>>}, {}), Tref |-> Pick({<<100, 1>>, <<200, 1>>}, {}),
@@ -116,7 +121,7 @@ TimesOf(f, p) ==
     [] f = "EPpiston" -> Pick({<<1, 50>>, <<1, 20>>}, {})
     [] f \in {"Kenamond1", "Kenamond2", "Kenamond3", "DSDcyl"} -> {<<1, 1>>}      \* burn-time fields do not depend on t
     [] f = "Blake" -> Pick({<<1, 20>>, <<1, 10>>}, {})
-    [] f = "RadShock" -> {<<1, 1>>}
+    [] f \in {"RadShock", "Riemann2D"} -> {<<1, 1>>}
     [] f = "SuOlson" -> Pick({<<1, 10>>, <<1, 1>>, <<10, 1>>}, {<<1, 100>>, <<3, 1>>})     \* dimensionless time tau
     [] f \in {"Rod1D", "Hutchens1", "RodNH", "Sandwich", "Rectangle", "Hutchens2"} -> Pick({<<1, 10>>, <<1, 2>>}, {<<1, 100>>})
     [] OTHER -> Times
@@ -125,11 +130,12 @@ TimesOf(f, p) ==
 (* fractional power of a negative number): the mathematics, not a        *)
 (* documented restriction of the solver                                  *)
 Geom(f, p) == IF "geometry" \in DOMAIN p THEN p.geometry
-              ELSE IF f \in RiemannFams \cup {"EHEP", "Mader", "EPpiston", "Rod1D", "RodNH", "Sandwich", "SuOlson", "RadShock"} THEN 1 ELSE IF f = "DSDcyl" THEN 2 ELSE 3
+              ELSE IF f \in RiemannFams \cup {"EHEP", "Mader", "EPpiston", "Rod1D", "RodNH", "Sandwich", "SuOlson", "RadShock"} THEN 1 ELSE IF f = "Riemann2D" THEN 2 ELSE IF f = "DSDcyl" THEN 2 ELSE 3
 Defined(f, p, t) ==
   LET k == Geom(f, p) - 1 IN
   CASE f \in RiemannFams -> /\ ~(QEq(p.pl, p.pr) /\ QEq(p.ul, p.ur))                   \* a pure contact has no acoustic waves
                             /\ ~(QEq(p.pl, p.pr) /\ QEq(p.rl, p.rr) /\ QEq(p.gl, p.gr))  \* mirror-symmetric data: no contact
+    [] f = "Riemann2D" -> ~(QEq(p.pB, p.pT) /\ QEq(p.thB, p.thT))     \* equal pressures and directions: a pure slip line, no waves
     [] f = "Sedov" -> QLt(p.omega, <<Geom(f, p), 1>>)
     [] f = "DSDcyl" -> QLt(p.r_1, p.r_2) /\ QLt(QDiv(p.alpha_1, p.D_CJ_1), p.r_1) /\ QLt(QDiv(p.alpha_2, p.D_CJ_2), p.r_2)
     [] f = "Kenamond2" -> QLe(p.D2, p.D1)
